@@ -139,7 +139,7 @@ fn apply(orig: &[u8], t: &Tamper) -> Option<Vec<u8>> {
 struct Api {
     args: &'static [&'static str],
 }
-const APIS: [Api; 9] = [
+const APIS: [Api; 13] = [
     Api { args: &["config", "show"] },
     Api { args: &["target", "show", "-g"] },
     Api { args: &["analyze"] },
@@ -149,7 +149,38 @@ const APIS: [Api; 9] = [
     Api { args: &["result", "show"] },
     Api { args: &["log", "show", "--stdout"] },
     Api { args: &["out", "delete"] },
+    Api { args: &["checkpoint", "delete"] },
+    Api { args: &["target", "render", "-f", "c17-graph.dot"] },
+    Api { args: &["log", "tail", "--stdout"] },
+    Api { args: &["out", "delete", "--all"] },
 ];
+const LOG_TAIL: usize = 11;
+
+/// Invoke one API. `log tail` never returns by itself when it is accepted: it counts as
+/// successful (exit 0) as soon as it listens on the log port, and is then killed.
+fn invoke(env: &mut Env, i: usize) -> bb::MrOut {
+    if i != LOG_TAIL {
+        return env.mr(APIS[i].args);
+    }
+    let mut t = env.mr_spawn(APIS[i].args, &[]);
+    let t0 = std::time::Instant::now();
+    loop {
+        if t.try_done() {
+            return t.wait(std::time::Duration::from_secs(5));
+        }
+        if bb::is_listening(env.log_port) || t0.elapsed() > std::time::Duration::from_secs(20) {
+            let listening = bb::is_listening(env.log_port);
+            t.kill_group();
+            let mut o = t.wait(std::time::Duration::from_secs(5));
+            if listening {
+                o.code = Some(0);
+                o.signal = None;
+            }
+            return o;
+        }
+        std::thread::sleep(std::time::Duration::from_millis(2));
+    }
+}
 
 pub fn check(case: &Case, w: usize) -> CheckResult {
     let mut env = Env::new(w);
@@ -188,10 +219,11 @@ pub fn check(case: &Case, w: usize) -> CheckResult {
         .ok()
         .and_then(|v| v.get("checksum").and_then(|c| c.as_str()).map(String::from));
     // untouched: everything works (state is built up in an order that makes every API meaningful)
-    let order = [0usize, 1, 2, 3, 5, 2, 4, 6, 7, 8];
+    let order = [0usize, 1, 2, 3, 5, 2, 4, 9, 5, 6, 7, 10, 11, 8, 12, 3, 5];
+    let mut seen_update = false;
     for &i in &order {
         env.clear_traces();
-        let o = env.mr(APIS[i].args);
+        let o = invoke(&mut env, i);
         if !o.ok() {
             return viol_obs(
                 "c17.untouched.rejected",
@@ -203,10 +235,14 @@ pub fn check(case: &Case, w: usize) -> CheckResult {
                 o.brief(),
             );
         }
-        if i == 3 && env.traces().len() != ntargets_with_cmd {
+        if i == 3 && env.traces().len() != ntargets_with_cmd && !seen_update {
             return viol("c17.untouched.run", "run on the untouched configuration did not start the defined commands".into());
         }
+        if i == 5 {
+            seen_update = true;
+        }
     }
+    let render_path = env.path("c17-graph.dot");
     let out_dir = env.path("monorail-out");
     let mut info = CaseInfo::new(false);
     let mut nontrivial = false;
@@ -244,9 +280,15 @@ pub fn check(case: &Case, w: usize) -> CheckResult {
         for k in 0..2 {
             let api = &APIS[(ti * 2 + k + case.tampers.len()) % APIS.len()];
             env.clear_traces();
-            let o = env.mr(api.args);
+            let _ = std::fs::remove_file(&render_path);
+            let api_index = (ti * 2 + k + case.tampers.len()) % APIS.len();
+            let o = invoke(&mut env, api_index);
             let started = env.traces().len();
             let snap2 = bb::snapshot_dir(&out_dir);
+            if render_path.exists() {
+                std::fs::write(&path, orig).ok();
+                return viol("c17.tampered.action", format!("`{}` wrote its output file after tamper {:?} {:?} {:?}", api.args.join(" "), t.file, t.kind, t.offset));
+            }
             let off_desc = format!("{:?} {:?} {:?}", t.file, t.kind, t.offset);
             if o.code == Some(0) {
                 let sig = match t.file {
@@ -340,11 +382,11 @@ pub fn exhaustive_cases() -> Vec<Case> {
 pub fn run(ctx: &mut Ctx) {
     ctx.rule = "a valid source configuration (2-6 generated targets, or 60-300 targets so that the generated file spans several 8 KiB buffers) passed through the real `config generate`; \
 first every API is exercised on the untouched triple (all must succeed, run must start its helpers); then single tampers: file in {source, generated, lockfile} x {XOR a non-zero mask into one byte, \
-truncate, append (text, NUL bytes, bytes repeating the content 512/4096/8192/16384/65536 positions earlier), cut 1-3 tail bytes}, 30% with the file's modification time restored afterwards x offset (first, last, uniformly random, within 3 bytes of 8192/16384/65536); plus every single-byte edit of one small triple. oracle per tamper (2 of 9 APIs, rotating): \
+truncate, append (text, NUL bytes, bytes repeating the content 512/4096/8192/16384/65536 positions earlier), cut 1-3 tail bytes}, 30% with the file's modification time restored afterwards x offset (first, last, uniformly random, within 3 bytes of 8192/16384/65536); plus every single-byte edit of one small triple. oracle per tamper (2 of 13 APIs, rotating): \
 non-zero exit, error JSON on stderr, no helper started, out dir byte-identical. lockfile edits that leave the parsed checksum intact are not judged. \
 non-trivial = tamper offset >= 8192, or tamper in source/lockfile; distinct by SHA-256"
         .to_string();
-    ctx.assumptions = vec!["APIs: config show, target show -g, analyze, run, checkpoint show/update, result show, log show, out delete".into()];
+    ctx.assumptions = vec!["APIs: config show, target show -g, analyze, run, checkpoint show/update/delete, result show, log show, out delete (with and without --all), target render, log tail (accepted = listening on the log port)".into()];
     ctx.drive_all("exhaustive-small", exhaustive_cases(), "one XOR edit (mask 0x01 or 0x20) at every byte offset of source, generated file and lockfile of one small configuration", check);
     let n = ctx.n(60, 1500);
     ctx.drive("sampled", strategy, n, check);
